@@ -6,6 +6,7 @@
 //   then   : {"id":N,"mode":"eval"|"bool"|"num"|"str"|"chars"|"nodelist"|"match","doc":d,"ctx":i,"pos":p,"size":s,
 //             "text":"...","vars":{name:{"t":..,"v":..}},"ns":{prefix:uri}}
 #include "common.hpp"
+#include "proj.hpp"
 #include <cmath>
 #include <xalanc/PlatformSupport/DoubleSupport.hpp>
 #include <xalanc/PlatformSupport/FormatterListener.hpp>
@@ -60,31 +61,6 @@ struct CharsCollector : public FormatterListener {
     void comment(const XMLCh* const) override {}
     void cdata(const XMLCh* const c, const size_type n) override { text.append(c, n); }
 };
-
-static std::string numJson(double x) {
-    char buf[160];
-    if (std::isnan(x)) return "{\"k\":\"nan\",\"neg\":false,\"m\":0}";
-    if (std::isinf(x)) { snprintf(buf, sizeof buf, "{\"k\":\"inf\",\"neg\":%s,\"m\":0}", x < 0 ? "true" : "false"); return buf; }
-    double a = std::fabs(x) * 8.0;
-    if (a < 33554432.0 && a == std::floor(a)) {
-        snprintf(buf, sizeof buf, "{\"k\":\"fin\",\"neg\":%s,\"m\":%ld}", std::signbit(x) ? "true" : "false", (long)a);
-        return buf;
-    }
-    // outside the modelled domain: tagged so that it can never equal a modelled number
-    snprintf(buf, sizeof buf, "{\"k\":\"oth\",\"neg\":%s,\"m\":0}", std::signbit(x) ? "true" : "false");
-    return buf;
-}
-
-static std::string nodesJson(const NodeRefListBase& l, const NodeIds& ids) {
-    std::string o = "[";
-    for (NodeRefListBase::size_type i = 0; i < l.getLength(); ++i) {
-        if (i) o += ",";
-        std::string r = ids.ref(l.item(i));           // "[d,i]"
-        r.insert(r.size() - 1, ",0");
-        o += r;
-    }
-    return o + "]";
-}
 
 int main(int argc, char** argv) {
     if (argc < 2) { fprintf(stderr, "usage: %s cases.ndjson\n", argv[0]); return 2; }
